@@ -157,6 +157,8 @@ STMTS = [
     "cd ..", "git commit -m 'msg'", "x = (1 +\n  2)", "import os, sys", "from os import (path,\n  sep)", "aliases['ll'] = 'ls -l'",
     "with open('f') as fh:\n        pass", "try:\n    pass\nexcept Exception as e:\n    pass", "echo a > out.txt", "ls | wc -l", "$PATH.append('/x')",
     "echo ${'HOME'}", "x = -1", "f(*a, **k)", "a if b else c", "x = y = 0", "return_value = not x", "@(cmd) arg", "echo hi &", "print(f'{{x}}')",
+    # macros: the raw text handed to the macro is part of the tree
+    "timeit!(r = !(ls   -la);   r.rtn   ==   0)", "f!(x  [1,  2],  y)", "echo! a   b  'c'",
 ]
 
 
@@ -173,6 +175,36 @@ def ob_statements(i: int, j: int, sep: int, k: int = -1) -> Optional[str]:
         k, rest = r.split(":", 1)
         return viol(k, lambda: rest.strip())
     return None
+
+
+# ----------------------------------------------------------------------------
+# 3b. single statements of further shapes (subprocess words holding operator characters, nested and block macros,
+#     f-string format specs, a continued command line)
+# ----------------------------------------------------------------------------
+SHAPES = [
+    # (class, text)
+    ("subproc-operator-chars", "pip install foo==1.0"), ("subproc-operator-chars", "echo a,b"), ("subproc-operator-chars", "echo a:b"),
+    ("subproc-operator-chars", "ls | grep --color=auto x"), ("subproc-operator-chars", "ls /tmp --x=1"),
+    ("fstring-spec", 'x = f"{y:{w}}"'), ("fstring-spec", 'x = f"{y = }"'),
+    ("nested-or-block-macro", "f!(a  g!(b)  c  d)"), ("nested-or-block-macro", "with! ctx:\n    a   b"),
+    ("continued-command", "echo a\\\nb"),
+    ("fine", "g!(  q  )"), ("fine", "echo a=b"), ("fine", "x = f'{y:>10}'"), ("fine", "f!(a,  b)\ny=2"), ("fine", "echo 'a==b'  c"),
+]
+
+
+def ob_shapes(i: int) -> Optional[str]:
+    if not (0 <= i < len(SHAPES)):
+        raise Skip()
+    cls, text = _pick(SHAPES, i)
+    r = concretely(_fmt_check, text + "\n")
+    if r:
+        k, rest = r.split(":", 1)
+        return viol(k + "-" + cls, lambda: rest.strip())
+    return None
+
+
+def _region_cls(cls):
+    return lambda args, v: v.startswith("meaning-changed-" + cls)
 
 
 # ----------------------------------------------------------------------------
@@ -239,13 +271,21 @@ OBLIGATIONS = [
                parts={"quick": [dict(style=s, l1=x) for s in range(3) for x in range(4)]}, timeout={"quick": 240, "thorough": 600},
                regions={"C17-trailing-space-in-multiline-string": _region_trailing}, symbolic="symbol index per position"),
     Obligation("statements", ob_statements,
-               bounds=f"every ordered pair (thorough: also every ordered triple) of {NSTM} statements (Python, subprocess lines, macros-free, comments, continuation lines, tab / 2 / 4 / 8 "
+               bounds=f"every ordered pair (thorough: also every ordered triple) of {NSTM} statements (Python, subprocess lines, function and alias macros, comments, continuation lines, tab / 2 / 4 / 8 "
                       "space indentation, f-strings) joined by one newline, a blank-line run or a comment",
                pre=[f"0 <= i < {NSTM}", f"0 <= j < {NSTM}", f"-1 <= k < {NSTM}"],
                parts={"quick": [dict(sep=s, k=-1) for s in range(3)],
                       "thorough": [dict(sep=s, k=-1) for s in range(3)] + [dict(sep=0, i=a) for a in range(NSTM)]},
                timeout={"quick": 240, "thorough": 900},
                symbolic="statement indices"),
+    Obligation("single_shapes", ob_shapes,
+               bounds=f"{len(SHAPES)} single statements: subprocess words holding == , : = characters, f-string format specs and debug text, nested function "
+                      "macros and a block macro, a command continued over a backslash, plus 5 neighbouring shapes that must stay intact",
+               pre=["0 <= i < 20"], timeout={"quick": 120, "thorough": 120},
+               regions={"C17-subproc-operator-chars-spaced": _region_cls("subproc-operator-chars"), "C17-fstring-spec-respaced": _region_cls("fstring-spec"),
+                        "C17-nested-or-block-macro-body-respaced": _region_cls("nested-or-block-macro"),
+                        "C17-continued-command-reindented": _region_cls("continued-command")},
+               symbolic="shape index"),
     Obligation("write_back", ob_write_back, bounds=f"{len(FILES)} files (ASCII and multi-byte UTF-8, shrinking and growing) rewritten in place by the CLI",
                pre=["0 <= i < 7"], timeout={"quick": 120, "thorough": 120}, symbolic="file index"),
 ]
